@@ -10,8 +10,9 @@
      (set-value result, channel-state result, calcfg result, set-channel-config result).  Replies are not originated
      traffic.
    * the SDK model: connect_cb only for a pending espconn_connect, disconnect_cb only for a live/closing connection,
-     received data only on a live connection ([env_allows], the design's Env_disconnect_before_connect); every other
-     event, the results of espconn_sent and all timing are unconstrained. *)
+     received data on a live connection, and a segment in flight at a device-initiated close is still delivered while the
+     connection is closing, followed at once by the disconnect callback ([env_allows] / [dev_step], the design's
+     Env_disconnect_before_connect); every other event, the results of espconn_sent and all timing are unconstrained. *)
 From Coq Require Import List ZArith Bool.
 Import ListNotations.
 From V Require Import Base.Bytes Base.Iface Gen.ProtoConsts Gen.C04Consts C04.Model C04.Proofs C04.Timing.
